@@ -1,10 +1,349 @@
-"""C05: structural clauses (see DESIGN.md section 4)."""
+"""C05 CTC prefix search: plumbing (G1/G2), fusion state re-indexing (G14/G16), padding
+sentinels (G13), -inf sentinel never multiplied by a mask/probability (G20)."""
 from __future__ import annotations
 
-from rules import fwd as R_fwd
+import ast
+
+from rules.sentinel import SentinelTaint
+from sa.astutil import call_name, guards_of, is_neg_inf, parent_map, u
+from sa.defuse import ReachingDefs
+from sa.model import AnalysisError, own_calls, own_nodes
+from sa.resolve import bind_args
 from .common import Ctx, plumbing
+from .search_common import SearchLoop, check_index_spaces
+
+MOD = "_decoding"
+ADV = "ctc_prefix_search_advance"
 
 
 def run(ctx: Ctx):
-    plumbing(ctx, 'S1')
-    return dict(explanation='plumbing clauses only (work in progress)', decided=['S1'], not_decided=[])
+    col, pkg, res = ctx.col, ctx.pkg, ctx.res
+    rel = pkg.module(MOD).relname
+    adv = pkg.func(f"{MOD}::{ADV}")
+    fwd = pkg.func(f"{MOD}::CTCPrefixSearch.forward")
+    where_f = f"{rel}::{fwd.qualname}"
+    where_a = f"{rel}::{ADV}"
+    sl = SearchLoop(fwd, ADV, src_slot=5, n_slots=7)
+    rd = sl.rd
+
+    # ---- S1 the call: tuple arguments in order; masses fed back ---------------------------
+    b = bind_args(sl.adv_call, adv, False)
+    got = {p.name: a for p, a, _ in b.pairs}
+    pt = got.get("probs_t")
+    names_pt = [u(x) for x in pt.elts] if isinstance(pt, ast.Tuple) else []
+    # (extension probs, non-extension probs, blank probs): derive from the step's frame slices
+    blank_name = nonext_name = None
+    for n in own_nodes(fwd.node):
+        if isinstance(n, ast.Assign) and len(n.targets) == 1 and isinstance(n.value, ast.Subscript):
+            s = u(n.value)
+            if s.endswith("[..., V]"):
+                blank_name = u(n.targets[0])
+            if s.endswith("[..., :V]"):
+                nonext_name = u(n.targets[0])
+    ok_pt = False
+    if isinstance(pt, ast.Tuple) and len(pt.elts) == 3:
+        d1 = rd.derives(pt.elts[1])
+        d2 = rd.derives(pt.elts[2])
+        ok_pt = (nonext_name in {x.id for x in d1.nodes() if isinstance(x, ast.Name)}
+                 and blank_name in {x.id for x in d2.nodes() if isinstance(x, ast.Name)}
+                 and blank_name not in {x.id for x in d1.nodes() if isinstance(x, ast.Name)})
+    col.ob("G1", "S1", f"{where_f}::{ADV}(probs_t=(ext, nonext, blank))", ok_pt,
+           f"probs_t is passed as {names_pt}; slot 1 must derive from the non-blank frame scores "
+           f"(`{nonext_name}`) and slot 2 from the blank scores (`{blank_name}`)", rel, sl.adv_call.lineno,
+           sample=names_pt)
+    pp = got.get("probs_prev")
+    nb_next = sl.slot_name(sl.adv_assign, (3, 0))
+    b_next = sl.slot_name(sl.adv_assign, (3, 1))
+    fed = False
+    if isinstance(pp, ast.Tuple) and len(pp.elts) == 2:
+        # each element must be reached (loop-carried) by the same slot of this call's result
+        def reach(e, want):
+            der = rd.derives(e, value_flow=True, stop=lambda d: d.stmt is sl.adv_assign)
+            return any(d.stmt is sl.adv_assign and d.slot == want for d in der.defs)
+        fed = reach(pp.elts[0], (3, 0)) and reach(pp.elts[1], (3, 1)) \
+            and not reach(pp.elts[0], (3, 1)) and not reach(pp.elts[1], (3, 0))
+    col.ob("G2", "S1", f"{where_f}::{ADV}(probs_prev<-(nb, b) of the previous step)", fed,
+           f"the non-blank / blank masses returned by one step (`{nb_next}`, `{b_next}`) are not fed back into the "
+           f"same slots of probs_prev (`{u(pp)}`): the two masses are swapped or mixed", rel, sl.adv_call.lineno,
+           sample=u(pp))
+    # in the advance function the masses are unpacked in the same order as they are returned
+    rda = ReachingDefs(adv.node)
+    ret = [st for st, _ in rda.return_envs][-1]
+    order_ok = False
+    pp_un = _tuple_slots(rda, "probs_prev")
+    pt_un = _tuple_slots(rda, "probs_t")
+    if len(pp_un) == 2 and len(pt_un) == 3 and isinstance(ret.value, ast.Tuple) and isinstance(ret.value.elts[3], ast.Tuple):
+        # blank mass of the next step derives from the blank probability; non-blank from nonext/ext
+        rb = rda.derives(ret.value.elts[3].elts[1], value_flow=True)
+        rn = rda.derives(ret.value.elts[3].elts[0], value_flow=True)
+        uses = lambda der, nm: any(d.name == nm for d in der.defs)
+        blank_t, nonext_t, ext_t = pt_un[2], pt_un[1], pt_un[0]
+        order_ok = uses(rb, blank_t) and not uses(rb, ext_t) and uses(rn, ext_t) and uses(rn, nonext_t) \
+            and not uses(rn, blank_t)
+    col.ob("G2", "S1", f"{where_a}::returned-(nb, b)-roles", order_ok,
+           "in the advance step the returned blank mass must derive from the blank probability only and the "
+           "non-blank mass from the extension / non-extension probabilities only (slots swapped otherwise)",
+           rel, ret.lineno)
+
+    # ---- S2 fusion branch -------------------------------------------------------------------
+    n_g, n_e = check_index_spaces(col, sl, rel, "S2", "probs_t")
+    col.floor("extract_by_src_sites", n_e, 1)
+    ex = [c for c in own_calls(fwd.node) if isinstance(c.func, ast.Attribute) and c.func.attr == "extract_by_src"]
+    idx_txt = {u(c.args[1]) for c in ex}
+    col.ob("G16", "S2", f"{where_f}::both-states-reindexed-by-one-index", len(idx_txt) == 1 and len(ex) == 2,
+           f"the old and the advanced model state are re-indexed with {sorted(idx_txt)}; they must follow the same "
+           f"surviving prefixes", rel, ex[0].lineno if ex else fwd.line, sample=sorted(idx_txt))
+    in_next_name = sl.slot_name(sl.calc_assign, (1,))
+    prev_arg = sl.calc_assign.value.args[1] if len(sl.calc_assign.value.args) > 1 else None
+    mix = [c for c in own_calls(fwd.node) if isinstance(c.func, ast.Attribute) and c.func.attr == "mix_by_mask"]
+    col.floor("mix_by_mask_sites", len(mix), 1)
+    nonext_slot = sl.slot_name(sl.adv_assign, (6,))
+    for c in mix:
+        if len(c.args) != 3:
+            raise AnalysisError("C05: mix_by_mask call does not have three positional arguments")
+        a_true, a_false, a_mask = c.args
+
+        def src_state(e):
+            """which state an expression comes from: 'old' (the state fed to calc_idx_log_probs) or 'new'."""
+            der = rd.derives(e, stop=lambda d: False)
+            out = set()
+            for cc in der.calls():
+                if isinstance(cc.func, ast.Attribute) and cc.func.attr == "extract_by_src":
+                    s = cc.args[0]
+                    sder = rd.derives(s)
+                    if any(d.stmt is sl.calc_assign and d.slot == (1,) for d in sder.defs):
+                        out.add("new")
+                    else:
+                        out.add("old")
+            return out
+        # direct (one-hop) provenance: the extract_by_src call that defines each argument
+        def direct(e):
+            if isinstance(e, ast.Name):
+                ks = set()
+                for d in rd.defs_of(e):
+                    v = d.value
+                    if isinstance(v, ast.Call) and isinstance(v.func, ast.Attribute) and v.func.attr == "extract_by_src":
+                        s = v.args[0]
+                        sd = rd.defs_of(s) if isinstance(s, ast.Name) else ()
+                        ks.add("new" if any(x.stmt is sl.calc_assign and x.slot == (1,) for x in sd) else "old")
+                    else:
+                        ks.add("?")
+                return ks
+            return {"?"}
+        kt, kf = direct(a_true), direct(a_false)
+        col.ob("G16", "S2", f"{where_f}::mix_by_mask(prev_true=old, prev_false=advanced)", kt == {"old"} and kf == {"new"},
+               f"mix_by_mask receives {sorted(kt)} state as prev_true and {sorted(kf)} state as prev_false; a "
+               f"non-extended prefix (mask true) must keep the OLD model state and an extended one the ADVANCED state",
+               rel, c.lineno, sample=u(c))
+        mder = rd.derives(a_mask)
+        okm = any(d.stmt is sl.adv_assign and d.slot == (6,) for d in mder.defs) and not any(
+            isinstance(x, ast.UnaryOp) and isinstance(x.op, (ast.Invert, ast.Not)) for e in [a_mask] for x in ast.walk(e))
+        col.ob("G16", "S2", f"{where_f}::mix_by_mask(mask=this step's is-non-extension)", okm,
+               f"the mixing mask `{u(a_mask)}` is not this step's non-extension flag (`{nonext_slot}`)", rel, c.lineno,
+               sample=u(a_mask))
+    # the state fed to the next calc is the mixed state
+    if prev_arg is not None and isinstance(prev_arg, ast.Name):
+        ds = rd.defs_of(prev_arg)
+        from_mix = any(isinstance(d.value, ast.Call) and isinstance(d.value.func, ast.Attribute)
+                       and d.value.func.attr == "mix_by_mask" for d in ds)
+        stale = any(isinstance(d.value, ast.Call) and isinstance(d.value.func, ast.Attribute)
+                    and d.value.func.attr == "extract_by_src" for d in ds)
+        col.ob("G16", "S2", f"{where_f}::next-step-state-is-the-mixed-state", from_mix and not stale,
+               "the state passed to lm.calc_idx_log_probs on the next frame is not the result of mix_by_mask", rel,
+               sl.calc_assign.lineno)
+
+    # ---- S3 padding sentinels ---------------------------------------------------------------------
+    _s3(ctx, adv, fwd, sl, rel)
+
+    # ---- S4 never NaN: -inf sentinel x {mask, probability} -------------------------------------
+    st = SentinelTaint(adv, tainted_params={"probs_prev"} if fed else set())
+    sinks = st.sinks()
+    n_mask = [s for s in sinks if s[1] == "mask"]
+    n_float = [s for s in sinks if s[1] == "float"]
+    col.ob("G20", "S4", f"{where_a}::neg-inf-mass*bool-mask", not n_mask,
+           "a mass that can hold the -inf sentinel of an empty beam slot is multiplied by a 0/1 mask: -inf * 0 = NaN "
+           "for every masked-out slot (" + "; ".join(f"line {s[0].lineno}: `{u(s[0])[:70]}`" for s in n_mask[:3]) + ")",
+           rel, n_mask[0][0].lineno if n_mask else adv.line,
+           sample=[u(s[0])[:100] for s in n_mask] or "no -inf-tainted mass is multiplied by a mask")
+    col.ob("G20", "S4", f"{where_a}::neg-inf-mass*probability", not n_float,
+           "a mass that can hold the -inf sentinel is multiplied by a probability tensor that a saturated softmax "
+           "makes exactly 0: -inf * 0.0 = NaN (" + "; ".join(
+               f"line {s[0].lineno}: `{u(s[0])[:60]}`" for s in n_float[:4]) + ")",
+           rel, n_float[0][0].lineno if n_float else adv.line,
+           sample=[u(s[0])[:100] for s in n_float] or "none")
+    col.count("sentinel_mult_sites", len(sinks))
+    # the taint engine must see the sentinel at all (positive control): the K < width branch
+    src_seen = any(st.is_source(n) for n in own_nodes(adv.node))
+    col.ob("G20", "S4", f"{where_a}::sentinel-source-present", src_seen,
+           "no -inf sentinel source found in the advance step (the rule would pass vacuously)", rel, adv.line,
+           nontrivial=False)
+    stf = SentinelTaint(fwd)
+    fs = stf.sinks()
+    col.ob("G20", "S4", f"{where_f}::neg-inf-mass*anything", not fs,
+           "CTCPrefixSearch.forward multiplies a -inf padded mass: " + "; ".join(u(s[0])[:60] for s in fs[:3]),
+           rel, fs[0][0].lineno if fs else fwd.line, sample=[u(s[0])[:80] for s in fs] or "none")
+    plumbing(ctx, "S1")
+    return dict(
+        explanation=(
+            "Decides for C05: (S1) the advance call passes (ext, nonext, blank) probabilities and feeds the returned "
+            "(non-blank, blank) masses back into the same slots; inside the step the returned blank mass derives only "
+            "from the blank probability; (S2) in the fusion branch both model states are re-indexed by one flat index "
+            "built from this step's beam-local source index with the stride the scores were shaped with, and "
+            "mix_by_mask gets (old, advanced, this step's non-extension mask); (S3) every slot appended beyond the "
+            "legitimate candidates carries -inf mass / False prefix relation and nothing else is concatenated onto a "
+            "mass; (S4) no mass that can carry the -inf sentinel is multiplied by a 0/1 mask [F12, repaired] or by a "
+            "probability [known finding F13]. NOT decided: equality with the prefix-beam recursion's mass, 'never "
+            "more', merge bookkeeping, per-element independence (numerical)."),
+        decided=["S1", "S2", "S3", "S4"],
+        not_decided=["mass equals prefix-beam recursion", "never more than true mass", "merge bookkeeping",
+                     "batch element independence"],
+        assumptions=["torch semantics: -inf * 0 = NaN, -inf + finite = -inf, where/masked_fill select",
+                     "a softmax can produce exact 0.0"],
+    )
+
+
+def _tuple_slots(rd, param: str):
+    """{slot index: local name} for `a, b = param` or `a = param[0]; b = param[1]`."""
+    out = {}
+    for d in rd.defs:
+        v = d.value
+        if d.kind == "unpack" and isinstance(v, ast.Name) and v.id == param and d.slot and len(d.slot) == 1:
+            out[d.slot[0]] = d.name
+        elif d.kind == "assign" and isinstance(v, ast.Subscript) and isinstance(v.value, ast.Name) \
+                and v.value.id == param and isinstance(v.slice, ast.Constant) and isinstance(v.slice.value, int):
+            out[v.slice.value] = d.name
+    return out
+
+
+def _s3(ctx, adv, fwd, sl, rel):
+    col = ctx.col
+    # advance: in the `K < width` branch every cat onto a mass appends a -inf source; onto the prefix relation a
+    # False source
+    rda = ReachingDefs(adv.node)
+    pm = parent_map(adv.node)
+    ret = [st for st, _ in rda.return_envs][-1]
+    if not (isinstance(ret.value, ast.Tuple) and len(ret.value.elts) == 7):
+        raise AnalysisError("C05: advance step does not return a 7-tuple")
+    mass_names = {u(x) for x in ret.value.elts[3].elts} if isinstance(ret.value.elts[3], ast.Tuple) else set()
+    rel_name = u(ret.value.elts[4])
+    st = SentinelTaint(adv)
+    n_mass = n_rel = 0
+    for n in own_nodes(adv.node):
+        if isinstance(n, ast.Assign) and isinstance(n.value, ast.Call) and call_name(n.value) == "torch.cat" \
+                and n.value.args and isinstance(n.value.args[0], (ast.List, ast.Tuple)):
+            tgt = u(n.targets[0])
+            elts = n.value.args[0].elts
+            gs = guards_of(pm, n)
+            if not any("width" in u(t) for t, pol in gs):
+                continue
+            if tgt in mass_names and u(elts[0]) == tgt:
+                n_mass += 1
+                ok = all(_is_neg_inf_fill(rda, e) for e in elts[1:])
+                col.ob("G13", "S3", f"{rel}::ctc_prefix_search_advance::pad-mass({ 'nb' if tgt == sorted(mass_names)[1] else 'b'})",
+                       ok, f"`{u(n)}` pads a mass with something other than the -inf sentinel: a slot holding no real "
+                       f"prefix would carry positive mass", rel, n.lineno, sample=u(n))
+            if tgt == rel_name and u(elts[0]) == tgt:
+                n_rel += 1
+                ok = all(_is_false_fill(rda, e) for e in elts[1:])
+                col.ob("G13", "S3", f"{rel}::ctc_prefix_search_advance::pad-prefix-relation[{n_rel}]", ok,
+                       f"`{u(n)}` pads the prefix relation with something other than False", rel, n.lineno, sample=u(n))
+    col.floor("advance_mass_pad_sites", n_mass, 2)
+    col.floor("advance_relation_pad_sites", n_rel, 2)
+    # forward: the two padding sites (inside the loop and after it)
+    rdf = sl.rd
+    nf = 0
+    mass_roots = {sl.slot_name(sl.adv_assign, (3, 0)), sl.slot_name(sl.adv_assign, (3, 1))}
+    pp = [a for p, a, _ in bind_args(sl.adv_call, adv, False).pairs if p.name == "probs_prev"][0]
+    if isinstance(pp, ast.Tuple):
+        mass_roots |= {u(x) for x in pp.elts}
+    rets = [st_ for st_, _ in rdf.return_envs]
+    if rets and isinstance(rets[-1].value, ast.Tuple):
+        mass_roots.add(u(rets[-1].value.elts[2]))
+    for n in own_nodes(fwd.node):
+        if isinstance(n, ast.Call) and call_name(n) == "torch.cat" and n.args and isinstance(n.args[0], (ast.List, ast.Tuple)):
+            elts = n.args[0].elts
+            if u(elts[0]) in mass_roots:
+                nf += 1
+                ok = all(_is_neg_inf_fill(rdf, e) for e in elts[1:])
+                col.ob("G13", "S3", f"{rel}::CTCPrefixSearch.forward::pad-mass({u(elts[0])})", ok,
+                       f"`{u(n)[:100]}` pads a mass with something other than the -inf sentinel", rel, n.lineno,
+                       sample=u(n)[:120])
+    col.floor("forward_mass_pad_sites", nf, 3)
+
+
+def _is_neg_inf_fill(rd, e) -> bool:
+    der = rd.derives(e, max_depth=2)
+    for c in der.calls():
+        last = call_name(c).split(".")[-1]
+        if last in ("full", "new_full", "full_like") and len(c.args) >= 2 and is_neg_inf(c.args[1]):
+            return True
+    return False
+
+
+def _is_false_fill(rd, e) -> bool:
+    der = rd.derives(e, max_depth=3)
+    for c in der.calls():
+        last = call_name(c).split(".")[-1]
+        if last in ("zeros", "new_zeros") and any(k.arg == "dtype" and u(k.value) == "torch.bool" for k in c.keywords):
+            return True
+        if last in ("full", "new_full") and len(c.args) >= 2 and u(c.args[1]) in ("False", "0") and any(
+                k.arg == "dtype" and u(k.value) == "torch.bool" for k in c.keywords):
+            return True
+    return False
+
+
+MANIFEST = dict(
+    level_text=(
+        "Static dataflow/taint analysis (no execution) of ctc_prefix_search_advance and CTCPrefixSearch.forward: "
+        "argument/return slot roles of the blank and non-blank masses, index-space kinds (beam-local vs flat) and "
+        "stride of the model-state re-indexing in shallow fusion, mix_by_mask argument roles, padding sentinels, and "
+        "a taint analysis showing that no -inf padded mass reaches a multiplication by a 0/1 mask (NaN). These are "
+        "necessary conditions ('never NaN', 'state follows the surviving prefixes'); equality of the reported mass "
+        "with the prefix-beam recursion is numerical and not decided."),
+    level_note="Trusted: python ast, IEEE semantics of -inf*0, torch where/masked_fill. F12 (mass * mask) was found by "
+               "G20 and repaired; F13 (-inf mass * probability under a saturated softmax) is a known finding.",
+    technique="static analysis: taint analysis for the -inf sentinel, index-space kind checking, reaching definitions, argument binding",
+    design_ref="DESIGN.md section 4 C05, section 3 G20/G14",
+)
+
+
+def _mutants():
+    from selftest.mutate import Mutant as M
+    D = "_decoding.py"
+    return [
+        M("mass-times-mask-again", D, "b_nonext_probs_cand.gather(1, next_src).masked_fill(~next_is_nonext, 0.0)",
+          "b_nonext_probs_cand.gather(1, next_src) * next_is_nonext", "neg-inf-mass*bool-mask"),
+        M("nb-mass-times-mask", D, "nb_probs_next = torch.where(next_is_nonext, nb_nonext_probs_next, nb_ext_probs_next)",
+          "nb_probs_next = nb_nonext_probs_next * next_is_nonext + nb_ext_probs_next * ~next_is_nonext", "neg-inf-mass*bool-mask"),
+        M("swap-fed-back-masses", D, "nb_probs_prev, b_probs_prev = (nb_probs_next, b_probs_next)",
+          "nb_probs_prev, b_probs_prev = (b_probs_next, nb_probs_next)", "probs_prev<-(nb, b)"),
+        M("swap-fed-back-masses-where", D, "b_probs_prev = torch.where(valid_mask, b_probs_next, b_probs_prev)",
+          "b_probs_prev = torch.where(valid_mask, nb_probs_next, b_probs_prev)", "probs_prev<-(nb, b)"),
+        M("swap-probs-t", D, "(ext_probs_t, nonext_probs_t, blank_probs_t), self.width", "(ext_probs_t, blank_probs_t, nonext_probs_t), self.width",
+          "probs_t=(ext, nonext, blank)"),
+        M("return-masses-swapped", D, "(nb_probs_next, b_probs_next), next_is_prefix", "(b_probs_next, nb_probs_next), next_is_prefix",
+          "G2/S1"),
+        M("state-local-index", D, "prev = self.lm.extract_by_src(prev, next_src.flatten())\nin_next",
+          "prev = self.lm.extract_by_src(prev, next_is_nonext.flatten().long())\nin_next", "G1"),
+        M("mix-args-swapped", D, "self.lm.mix_by_mask(prev, in_next, next_is_nonext.flatten())",
+          "self.lm.mix_by_mask(in_next, prev, next_is_nonext.flatten())", "mix_by_mask(prev_true=old"),
+        M("mix-mask-negated", D, "self.lm.mix_by_mask(prev, in_next, next_is_nonext.flatten())",
+          "self.lm.mix_by_mask(prev, in_next, ~next_is_nonext.flatten())", "mix_by_mask(mask"),
+        M("stride-wrong", D, "torch.arange(0, prev_width * N, prev_width, device=next_src.device).unsqueeze(1) + next_src\nprev = self.lm.extract_by_src(prev",
+          "torch.arange(0, self.width * N, self.width, device=next_src.device).unsqueeze(1) + next_src\nprev = self.lm.extract_by_src(prev", "stride"),
+        M("pad-mass-with-zero", D, "neg_inf = torch.full((N, rem), -float('inf'), device=device, dtype=dtype)",
+          "neg_inf = torch.full((N, rem), 0.0, device=device, dtype=dtype)", "pad-mass"),
+        M("pad-relation-true", D, "false_ = torch.zeros((N, rem), device=device, dtype=torch.bool)",
+          "false_ = torch.ones((N, rem), device=device, dtype=torch.bool)", "pad-prefix-relation"),
+        M("forward-pad-zero", D, "neg_inf = nb_probs_prev.new_full((N, self.width - prev_width), -float('inf'))",
+          "neg_inf = nb_probs_prev.new_full((N, self.width - prev_width), 0.0)", "CTCPrefixSearch.forward::pad-mass"),
+        M("only-one-state-reindexed", D, "in_next = self.lm.extract_by_src(in_next, next_src.flatten())", "pass",
+          "G16/S2"),
+        M("twin:where-form", D, "b_nonext_probs_cand.gather(1, next_src).masked_fill(~next_is_nonext, 0.0)",
+          "torch.where(next_is_nonext, b_nonext_probs_cand.gather(1, next_src), torch.zeros_like(nb_probs_next))", "", twin=True),
+    ]
+
+
+def selftest(ctx: Ctx):
+    from selftest.mutate import run_selftest
+    return run_selftest("C05", ctx.pkg.repo, _mutants(), floor=12)
